@@ -37,6 +37,9 @@ SCALAR_PATHS = [p for p in PATHS if p not in (P("user"), P("user", "addr"), P("i
 ITER_PATHS = [P("user", "tags"), P("items"), P("nums"), P("user", "addr"), P("title"), P("nosuch"), P("user", "missing"), P("n"), P("emp"), P("none")]
 LITS = [1, 30, "ann", "", True, False, None, "rome"]
 FILTERS = ["upcase", "size", ("default", "dflt"), ("default", 0)]
+# the `has` array filter (its value argument may be a missing variable): modelled with its is_undefined guard
+HAS_FILTERS = [("has", "t", None), ("has", "id", ("lit", 2)), ("has", "t", ("lit", "one")), ("has", "t", P("nosuch")), ("has", "id", P("user", "missing")),
+               ("has", "name", P("k")), ("has", "zz", None), ("has", "id", P("n")), ("has", "t", P("user", "name")), ("has", "on", ("lit", False))]
 
 PARTIALS = {
     "p": [text("["), out("p"), text("|"), out("a", ("default", "noa")), text("]")],
@@ -68,7 +71,7 @@ def gen_expr(rng, local_names):
 
 
 def gen_filters(rng):
-    return [rng.choice(FILTERS) for _ in range(rng.choice([0, 0, 0, 1, 1, 2]))]
+    return [rng.choice(FILTERS + HAS_FILTERS) if rng.random() < 0.3 else rng.choice(FILTERS) for _ in range(rng.choice([0, 0, 0, 1, 1, 2]))]
 
 
 def gen_atom(rng, local_names):
@@ -141,6 +144,8 @@ def uses():
         for f in FILTERS:
             yield "filter", [out(m, f)], m
             yield "filter-assigned", [assign("v", m, f), text("ok")], m
+        yield "filter", [out(m, ("has", "t", None))], m
+        yield "filter-assigned", [assign("v", m, ("has", "t", ("lit", 1))), text("ok")], m
         yield "iterate", [("for", "i", ("ipath", m), [text("x")], [])], m
         for a in (("truthy", m), ("eq", m, 1), ("eq", m, None), ("ne", m, 1), ("lt", m, 1)):
             yield "compare", [("if", ("atom", a), [text("t")], [text("f")])], m
@@ -208,10 +213,19 @@ def filter_family(ck: Check) -> None:
                                      {"type": "filter-arg", "template": src, "data": data, "kind": k, "async": use_async, "strict": o, "default": base})
 
 
+def has_cases():
+    """The has filter over arrays of hashes, a hash, a string, numbers and nil, with literal / defined / missing value arguments."""
+    lefts = [P("items"), P("user"), P("title"), P("n"), P("nums"), P("none"), P("mixed"), P("flags"), P("nosuch"), P("user", "tags")]
+    for left in lefts:
+        for f in HAS_FILTERS:
+            yield [text("["), out(left, f), text("]")]
+            yield [assign("v", left, f), ("if", ("atom", ("truthy", P("v"))), [text("y")], [text("n")])]
+
+
 def run(ck: Check) -> None:  # noqa: PLR0912, PLR0915
     ck.rule = (
         "seeded templates over 40 paths of length 1..4 (names, indexes, size/first/last, nested variables) into nested data: output with "
-        "0..2 filters (upcase, size, default), assign, if with ==, !=, <, truthiness and and/or, for over arrays/hashes/strings/missing "
+        "0..2 filters (upcase, size, default, has with literal / defined / missing value argument), assign, if with ==, !=, <, truthiness and and/or, for over arrays/hashes/strings/missing "
         "values, with, capture, include/render with bound variable and arguments, macro calls with defaults; each rendered with data from "
         "which 0..6 random keys and sub-keys were deleted, under each of the four undefined types, sync and async. Oracles: a strict type "
         "that renders gives the default type's output; the default type never raises UndefinedError; StrictUndefined raises UndefinedError "
@@ -281,6 +295,14 @@ def run(ck: Check) -> None:  # noqa: PLR0912, PLR0915
                 report("strict-raises-without-use", f"{L.body_src(body)!r}: StrictUndefined gave {s} although the missing value is only bound or passed on", body, DATA, idx, "strict")
         elif s != ("err", "EUndefined"):
             report(f"strict-does-not-raise-on-{kind}", f"{L.body_src(body)!r}: StrictUndefined gave {s}, expected UndefinedError", body, DATA, idx, "strict")
+
+    # ------------------------------------------------------------- the has filter (guarded by is_undefined) under the four types
+    hdata = dict(DATA, mixed=[{"t": "x"}, 3], flags=[{"on": False}, {"on": 0}, {"t": None}])
+    for body in has_cases():
+        outs, idx = run_all("has", body, hdata)
+        ck.note_case(("has", L.body_src(body)))
+        ck.count("has.raising%dof4" % sum(1 for o in outs.values() if o[0] == "err"))
+        relation(body, hdata, outs, idx)
 
     # ------------------------------------------------------------- random templates x deleted data
     n = 260 if ck.quick else 3000
